@@ -18,6 +18,7 @@
 #include "json_object_private.h"
 #include "json_pointer.h"
 #include "json_pointer_private.h"
+#include "linkhash.h"
 #include "strdup_compat.h"
 #include "vasprintf_compat.h"
 
@@ -205,7 +206,13 @@ static int json_pointer_result_get_recursive(struct json_object *obj, char *path
 		if (json_object_is_type(res->parent, json_type_array))
 			res->index_in_parent = idx;
 		else
-			res->key_in_parent = path;
+		{
+			/* Point at the (unescaped) key stored in the parent itself: `path`
+			 * belongs to a working copy that is freed before `res` is used. */
+			struct lh_entry *ent =
+			    lh_table_lookup_entry(json_object_get_object(res->parent), path);
+			res->key_in_parent = ent ? (const char *)lh_entry_k(ent) : NULL;
+		}
 	}
 
 	return 0;
@@ -255,9 +262,6 @@ int json_pointer_get_internal(struct json_object *obj, const char *path,
 		return -1;
 	}
 	rc = json_pointer_result_get_recursive(obj, path_copy, res);
-	/* re-map the path string to the const-path string */
-	if (rc == 0 && json_object_is_type(res->parent, json_type_object) && res->key_in_parent)
-		res->key_in_parent = path + (res->key_in_parent - path_copy);
 	free(path_copy);
 
 	return rc;
